@@ -1,14 +1,12 @@
 #!/bin/sh
 # usage: tools/applycheck.sh   -- which of the kept seeded changes no longer apply to /repo HEAD (after a fix touched the same lines)
-WT=$(mktemp -d /tmp/pvscratch.XXXXXX)
+WT=$(mktemp -d /tmp/pvapply.XXXXXX)
 git -C /repo worktree add --detach "$WT" HEAD >/dev/null 2>&1 || exit 2
 n=0
 for d in /verif/seeded/*/; do
   id=$(basename "$d")
-  if ! git -C "$WT" apply --check "$d/patch.diff" 2>/dev/null; then
-    git -C "$WT" apply --3way "$d/patch.diff" >/dev/null 2>&1 || echo "APPLY-FAILED $id"
-    git -C "$WT" reset -q --hard; git -C "$WT" clean -qfd
-  fi
+  git -C "$WT" apply --3way "$d/patch.diff" >/dev/null 2>&1 || echo "APPLY-FAILED $id"
+  git -C "$WT" reset -q --hard; git -C "$WT" clean -qfd
   n=$((n+1))
 done
 echo "checked $n"
